@@ -476,5 +476,13 @@ func (a *oauth2IntrospectionAuthenticator) calculateCacheKey(ep *endpoint.Endpoi
 	digest.Write(stringx.ToBytes(templatedURL))
 	digest.Write(stringx.ToBytes(token))
 
+	// an entry is valid for the time configured for the authenticator which stored it, and
+	// must not be reused by an authenticator configured with another cache ttl
+	digest.Write([]byte{0})
+
+	if a.ttl != nil {
+		digest.Write(stringx.ToBytes(a.ttl.String()))
+	}
+
 	return hex.EncodeToString(digest.Sum(nil))
 }
